@@ -94,7 +94,12 @@ Definition gate1_table : list (string * (l1 * l1) * (Z * mat)) :=
     ("SQRT_X", (lX, lmY), (2, [[c 1 1; c 1 (-1)]; [c 1 (-1); c 1 1]]));
     ("SQRT_X_DAG", (lX, lY), (2, [[c 1 (-1); c 1 1]; [c 1 1; c 1 (-1)]]));
     ("SQRT_Y", (lmZ, lX), (2, [[c 1 1; c (-1) (-1)]; [c 1 1; c 1 1]]));
-    ("SQRT_Y_DAG", (lZ, lmX), (2, [[c 1 (-1); c 1 (-1)]; [c (-1) 1; c 1 (-1)]])) ].
+    ("SQRT_Y_DAG", (lZ, lmX), (2, [[c 1 (-1); c 1 (-1)]; [c (-1) 1; c 1 (-1)]]));
+    (* not in the logical gate set of C20; used for the observations about gates outside the expansion table *)
+    ("H_XY", (lY, lmZ), (1, [[g0; c 1 (-1)]; [c 1 1; g0]]));
+    ("H_YZ", (lmX, lY), (1, [[g1; gmI]; [gI; gm1]]));
+    ("C_XYZ", (lY, lX), (2, [[c 1 (-1); c (-1) (-1)]; [c 1 (-1); c 1 1]]));
+    ("C_ZYX", (lZ, lY), (2, [[c 1 1; c 1 1]; [c (-1) 1; c 1 (-1)]])) ].
 
 Local Definition f := false.
 Local Definition t := true.
